@@ -10,6 +10,7 @@ witnesses. The varint bounds come from the regenerated `Uquic.Gen.Frames` consta
 import Uquic.Proofs.FramesFlightTotal
 import Uquic.Proofs.FramesStream
 import Uquic.Proofs.FramesAppend
+import Uquic.Proofs.FramesPlanned
 
 namespace Uquic.Props.C09
 open Uquic.Spec.Framing Uquic.Model.UQuic.Frames Uquic.Model.UQuic.Scrambler
@@ -458,5 +459,37 @@ def exampleState : CS :=
 example : ScrInv exampleState (List.replicate 40 7) 40 [] :=
   ⟨rfl, rfl, rfl, rfl, by simp, by decide, by decide, Or.inr (by decide), Or.inr (by decide), by simp,
    fun i h1 _ => Or.inr (Or.inl h1)⟩
+
+/-! ## a pre-planned flight under loss: what is registered for retransmission -/
+
+open Uquic.Model.UQuic.Planned Uquic.Proofs.Planned in
+/-- plannedInitialPayload registers, for a planned datagram that is a frame sequence, exactly the
+    CRYPTO frames the datagram carries — one ackhandler frame per range, each with its own offset and
+    bytes (not N references to one frame) -/
+theorem planned_registers_what_it_carries {u : List UInt8} {fs : List Frame} {cs : List (Nat × Nat × List UInt8)}
+    (hs : readFrames u = some fs) (hc : chReadAll u = .ok cs) : registeredOf u = cryptoOf fs :=
+  registered_is_carried hs hc
+
+open Uquic.Model.UQuic.Planned Uquic.Proofs.Planned in
+/-- `planned_retransmission_covers`: take ANY flight that validateInitialFlight released, and ANY
+    history of PackCoalescedPacket calls and loss declarations (any subset of the datagrams and of the
+    retransmissions, in any order, a Retry re-queueing everything included). Every byte of the
+    ClientHello stays accounted for; so once nothing is left to send — no planned datagram, empty
+    retransmission queue — the packets that were NOT lost together cover the complete ClientHello. -/
+theorem planned_retransmission_covers (ps : List (List UInt8)) (budgets : List Int) (n : Int)
+    (rs : List (Nat × Nat)) (rb : Int) (hv : validate ps budgets n = .ok rs) (ops : List Uquic.Proofs.Planned.Op) :
+    let s := Uquic.Proofs.Planned.run { payloads := ps, rb := rb } ops
+    s.payloads = [] → s.queue = [] → ∀ i, i < n.toNat → ∃ fs, some fs ∈ s.sent ∧ CovF fs i := by
+  intro s hp hq i hi
+  obtain ⟨_, _, hl, _, hc⟩ := validate_ok hv
+  obtain ⟨r, hr, h1, h2⟩ := hc i hi
+  obtain ⟨u, hu, f, hf, e1, e2⟩ := lenient_registered ps rs hl r hr
+  have h0 : Accounted ({ payloads := ps, rb := rb } : PF) i :=
+    Or.inl ⟨u, hu, f, hf, by omega, by omega⟩
+  have := accounted_run ops _ i h0
+  rcases this with ⟨v, hv', _⟩ | ⟨g, hg, _⟩ | h
+  · rw [hp] at hv'; simp at hv'
+  · rw [hq] at hg; simp at hg
+  · exact h
 
 end Uquic.Props.C09
